@@ -528,8 +528,12 @@ class AttributeCollection(MutableMapping[int, Attribute]):
                 'parser',
             )
             try:
+                # EXTENDED_LENGTH says how this occurrence was framed, not what the attribute
+                # is: pack_attribute sets it again when the payload needs it. Keeping it made
+                # an attribute over 255 bytes unequal to the one it was encoded from, and
+                # differently named in JSON
                 decoded_generic: Attribute = GenericAttribute.make_generic(
-                    aid, flag | Attribute.Flag.PARTIAL, attribute
+                    aid, (flag | Attribute.Flag.PARTIAL) & Attribute.Flag.MASK_EXTENDED, attribute
                 )
             except IndexError:
                 self.add(TreatAsWithdraw(aid), attribute)
